@@ -17,11 +17,14 @@ Fixpoint text_eqb (a b : text) : bool :=
   | _, _ => false
   end.
 
+(* linear-time reverse (List.rev is quadratic); frev l = rev l by List.rev_alt *)
+Definition frev {A} (l : list A) : list A := rev_append l [].
+
 (* str.split(c): never returns the empty list *)
 Fixpoint split_go (c : Z) (cur : text) (s : text) : list text :=
   match s with
-  | [] => [rev cur]
-  | x :: s' => if x =? c then rev cur :: split_go c [] s' else split_go c (x :: cur) s'
+  | [] => [frev cur]
+  | x :: s' => if x =? c then frev cur :: split_go c [] s' else split_go c (x :: cur) s'
   end.
 Definition split_on (c : Z) (s : text) : list text := split_go c [] s.
 
@@ -43,7 +46,7 @@ Fixpoint lstrip (s : text) : text :=
   | x :: s' => if is_ws x then lstrip s' else s
   | [] => []
   end.
-Definition rstrip (s : text) : text := rev (lstrip (rev s)).
+Definition rstrip (s : text) : text := frev (lstrip (frev s)).
 Definition strip (s : text) : text := rstrip (lstrip s).
 
 Fixpoint starts_with (p s : text) : bool :=
@@ -71,7 +74,7 @@ Fixpoint from_last_go (c : Z) (s : text) (best : option text) : option text :=
 Definition slice_from_rfind (c : Z) (s : text) : text :=
   match from_last_go c s None with
   | Some r => r
-  | None => match rev s with [] => [] | x :: _ => [x] end
+  | None => match frev s with [] => [] | x :: _ => [x] end
   end.
 
 (* text up to the first occurrence of sub (whole text if absent) *)
